@@ -6,12 +6,13 @@ PROP = dict(
     assumptions=[],
     jobs=dict(
         quick=[
-            job("chainntnfs", "^TestVerifC14Machine$", ["TestVerifC14Machine"], 3000, shards=6),
-            job("chainntnfs", "^TestVerifC14MachineBolt$", ["TestVerifC14MachineBolt"], 30, shards=4),
+            job("chainntnfs", "^TestVerifC14Machine$", ["TestVerifC14Machine"], 6000, shards=6),
+            job("chainntnfs", "^TestVerifC14MachineBolt$", ["TestVerifC14MachineBolt"], 60, shards=4),
         ],
         thorough=[
-            job("chainntnfs", "^TestVerifC14Machine$", ["TestVerifC14Machine"], 40000, shards=16, timeout=1500),
-            job("chainntnfs", "^TestVerifC14MachineBolt$", ["TestVerifC14MachineBolt"], 300, shards=8, timeout=1500),
+            job("chainntnfs", "^TestVerifC14Machine$", ["TestVerifC14Machine"], 60000, shards=16, timeout=1500,
+                env=dict(VERIF_C14_LEN=70)),
+            job("chainntnfs", "^TestVerifC14MachineBolt$", ["TestVerifC14MachineBolt"], 600, shards=8, timeout=1500),
         ],
     ),
 )
